@@ -135,6 +135,10 @@ func runCheck(spec *Spec, o *runOpts) int {
 				ok, out := nativeReplay(u, progs[u], v, rp)
 				if ok {
 					v.Native = "reproduced"
+				} else if kf := known.match(spec.Property, v.ID); kf != nil {
+					// a recorded finding (confirmed natively when it was recorded): a racy native schedule that
+					// does not hit the window this time does not make the run inconclusive
+					v.Native = "not-reproduced-this-run"
 				} else {
 					v.Native = "not-reproduced"
 					inconclusive = append(inconclusive, fmt.Sprintf("%s: counterexample for %s did not reproduce natively (engine/stub mismatch?) replay=%s: %s", res.Func, v.ID, rp, lastLines(out, 6)))
